@@ -143,7 +143,7 @@ def compare(case, items, opts, acc, chains=None, titrate_only=None, text=None, j
     except ValueError as exc:
         if not any(not isinstance(i, str) for i in items) or 'does not seem to contain' in str(exc):
             acc.extra['rejected_empty'] += 1
-            return []
+            return [], exp, None
         raise
     viols = []
     expc = collections.Counter(key4(g) for g in exp)
@@ -477,6 +477,13 @@ def run_case(case, ctx, acc):
         acc.case(nontrivial_key=jhash(case) if exp else None,
                  outcome=jhash(sorted(key4(g)[1:] for g in exp)), sample=dict(case=case, text=gen.to_text(items)[:400]))
         if case['dev'] <= 1:
+            # the same stream as two / three identical models and as a single model with a number of its own:
+            # every conformation and the average must show the census of one model (terminus flags restart per MODEL)
+            one = gen.to_text(items)
+            for nums in ((1, 2), (3,), (1, 2, 5)):
+                multi = ''.join('MODEL     %4d\n%sENDMDL\n' % (n, one) for n in nums)
+                compare(dict(case, models=list(nums)), items, (), acc, text=multi)
+                acc.n += 1
             atoms = [i for i in items if not isinstance(i, str)]
             chains = sorted({a.chain for a in atoms})
             if len(chains) > 1:
